@@ -18,6 +18,10 @@ theorem strict_graph_ranked : rankOK rank strictEdges = true := by decide +kerne
 theorem no_wait_cycle (W : List (Nat × Nat)) (hsub : ∀ e ∈ W, e ∈ strictEdges) (a : Nat) : ¬ Path W a a :=
   no_deadlock strict_graph_ranked W hsub a
 
+/-- every actor eventually answers: every request accepted by the dispatcher is eventually processed by its controller,
+    a halt told to Filtration completes, `stop_all()` returns (under fair scheduling of the actor threads) -/
+theorem every_actor_responsive : ∀ a, Responsive strictEdges a := all_responsive strict_graph_ranked
+
 /-- the two controllers that query Filtration never get queried by it without timeout -/
 theorem filtration_never_waits_for_heating_or_swim :
     strictEdges.all (fun e => !(e.1 == a_Filtration && (e.2 == a_Heating || e.2 == a_Swim))) = true := by
